@@ -114,12 +114,12 @@ CLAIMED = {
     "C03": dict(
         text="Coq theorems over the mirror of the Memfs state (entries index, data index, per-directory name sets, cwd, root): the well-formedness "
              "invariant WF (every non-root path has a parent that is a real directory and lists it; every listed name exists; exactly the regular "
-             "non-link files have data; every entry is stored under its own path; cwd and root absolute) holds initially and is preserved by every "
-             "call other than move_p - copy, chmod, chown and mkfile_m included - succeeding or failing, for all arguments, hence after every "
-             "move_p-free history of any length (wf_step_nonmovep, wf_history); a boolean checker wf_b is proved sound for WF and is evaluated by the "
-             "extracted model on the implementation's own state snapshot after every history of a model-guided BFS over a bounded namespace and of "
-             "random longer histories, which is what covers move_p. Partial: preservation by move_p's relocation loop is judged on snapshots "
-             "(bounded enumeration), not yet proved.",
+             "non-link files have data; every entry is stored under its own path; a files set exactly on directory-kinded entries; root = '/') holds "
+             "initially and is preserved by EVERY call, succeeding or failing, for all states and arguments - including move_p, whose relocation loop "
+             "passes through ill-formed states and is proved through a display invariant (Memfs/WfMove.v), and copy / chmod / chown / mkfile_m - hence "
+             "after every history of any length (wf_step, wf_all_histories); recursive reachability from the root follows (wf_reachable). A boolean "
+             "checker wf_b is proved sound for WF and is evaluated by the extracted model on the implementation's own state snapshot after every history "
+             "of a model-guided BFS over a bounded namespace and of random longer histories, which ties the theorem's subject to the real indexes.",
         note="Trusted: Coq kernel; hook sys::verif::memfs_snapshot (read-only dump of the guarded state); HashSet/HashMap as finite sets/maps; "
              "extraction, driver, harness, differ.",
         technique="Coq proof (invariant by induction over operation histories, sound boolean checker) + snapshot judging on the implementation",
